@@ -10,6 +10,7 @@ segm.data by loops and from fresh SegmentationImages queried in two orders (attr
 SourceFinder(deblend=False), detect_threshold formula."""
 import itertools
 import warnings
+from fractions import Fraction
 
 import numpy as np
 
@@ -287,12 +288,171 @@ def gen_scene_case(rng):
     return case
 
 
+# ---------------------------------------------------------------------------------------------------------------
+# image dtype x threshold representation, values at the rounding boundaries of the narrower type
+# ---------------------------------------------------------------------------------------------------------------
+_NPDT = {'float64': np.float64, 'float32': np.float32, 'float16': np.float16, 'f64': np.float64, 'f32': np.float32,
+         'f16': np.float16, 'npf64': np.float64, 'npf32': np.float32, 'npf16': np.float16, 'pyfloat': np.float64,
+         'f64-0d': np.float64, 'f32-0d': np.float32}
+
+
+def _snap(v, kind):
+    """v rounded into the value set of `kind` (a float dtype name or an integer kind), returned exactly as float64."""
+    if kind in _NPDT:
+        with np.errstate(over='ignore'):
+            return float(_NPDT[kind](v))
+    return float(round(v))
+
+
+def _step(v, kind, up):
+    """The neighbour of v (a member of the value set of `kind`) in that value set."""
+    if kind in _NPDT:
+        dt = _NPDT[kind]
+        return float(np.nextafter(dt(v), dt(np.inf if up else -np.inf)))
+    return v + (1.0 if up else -1.0)
+
+
+def _around(v, kind, other, rng):
+    """A value of `other`'s value set close to v (member of `kind`'s value set): equal / adjacent in `other` / inside
+    the rounding interval of v in `kind` (a quarter of the spacing away: rounds to v in `kind` but differs from it)."""
+    how = rng.choice(['same', 'up', 'down', 'quarter-up', 'quarter-down', 'up2', 'down2'])
+    w = _snap(v, other)
+    if how == 'same':
+        return w
+    if how in ('up', 'down'):
+        return _step(w, other, how == 'up')
+    if how in ('up2', 'down2'):
+        return _step(_step(w, other, how == 'up2'), other, how == 'up2')
+    q = (_step(v, kind, True) - v) / 4 if how == 'quarter-up' else -(v - _step(v, kind, False)) / 4
+    return _snap(v + q, other)
+
+
+def gen_precision_case(rng):
+    """Image dtype in {float64, float32, float16, integers} x threshold given as a 2-D array (float64 / float32 /
+    float16 / int32), a Python float / int, a numpy scalar or a 0-d array.  On the bright pixels data and threshold
+    sit on, next to, or within the rounding interval of each other in the narrower of the two types (ties, one
+    float64 step apart, values that only round to the other one).  case['data'] / case['thr'] hold the exact values
+    (float64 holds every float16 / float32 / small integer exactly); the expected answer is the exact comparison."""
+    ny, nx = rng.randint(2, 7), rng.randint(2, 7)
+    dtype = rng.choice(['float32', 'float32', 'float32', 'float16', 'float64', 'int16', 'int32', 'uint8', 'int64'])
+    two_d = rng.random() < 0.6
+    rep = (rng.choice(['f64', 'f64', 'f64', 'f32', 'f16', 'i32']) if two_d else
+           rng.choice(['pyfloat', 'pyfloat', 'npf64', 'npf64', 'npf32', 'npf16', 'pyint', 'f64-0d', 'f32-0d']))
+    dk = dtype if dtype.startswith('float') else 'int'
+    tk = rep if rep in _NPDT else 'int'
+    signed = dtype != 'uint8'
+    bases = [0.1, 0.3, 0.7, 1.1, 2.3, 1 / 3, 0.001, 100.1, 5.0, 17.0, 0.1 + 2 * 0.1, 2.5, 0.5, 33.3, 1e-3 + 1e-4]
+
+    def base():
+        c = rng.choice(bases) * rng.choice([1, 1, 1, 2, 3, 0.5])
+        if dk == 'int' or tk == 'int':
+            c = c + rng.randint(0, 40)
+        return -c if (signed and rng.random() < 0.15) else c
+
+    bright = np.zeros((ny, nx), bool)
+    for _ in range(rng.randint(1, 3)):
+        y, x = rng.randrange(ny), rng.randrange(nx)
+        bright[y:y + rng.randint(1, 3), x:x + rng.randint(1, 4)] = True
+    data = np.zeros((ny, nx))
+    thr = np.zeros((ny, nx))
+    t0 = None
+    if not two_d:
+        c = base()
+        if rng.random() < 0.5:       # a threshold that is (usually) not a member of the image's value set
+            t0 = _around(_snap(c, dk), dk, tk, rng)
+        else:
+            t0 = _snap(c, tk)
+    for y in range(ny):
+        for x in range(nx):
+            if two_d:
+                c = base()
+                if rng.random() < 0.5:          # anchor on the data value, threshold around it
+                    d = _snap(c, dk)
+                    t = _around(d, dk, tk, rng)
+                else:                           # anchor on the threshold, data around it
+                    t = _snap(c, tk)
+                    d = _around(t, tk, dk, rng)
+            else:
+                t = t0
+                d = _around(_snap(t, dk), dk, dk, rng) if rng.random() < 0.8 else _around(t, tk, dk, rng)
+            if not bright[y, x] and rng.random() < 0.8:      # background: clearly below
+                d = _snap(t - abs(t) / 2 - 1, dk) if signed else 0.0
+            elif bright[y, x] and rng.random() < 0.25:       # clearly above
+                d = _snap(t + abs(t) / 2 + 1, dk)
+            data[y, x], thr[y, x] = d, t
+    if dk != 'int' and rng.random() < 0.15:      # +inf pixels against a finite threshold beyond the narrow range
+        y, x = rng.randrange(ny), rng.randrange(nx)
+        data[y, x] = np.inf
+        if two_d and tk == 'f64':
+            thr[y, x] = 1e39 if dtype == 'float32' else (1e5 if dtype == 'float16' else 1e300)
+    if dk != 'int' and rng.random() < 0.1:
+        data[rng.randrange(ny), rng.randrange(nx)] = np.nan
+    if dtype == 'uint8':
+        data = np.clip(data, 0, 255)
+    mask = None
+    if rng.random() < 0.2:
+        mask = np.array([[rng.random() < 0.15 for _ in range(nx)] for _ in range(ny)])
+        if mask.all():
+            mask[0, 0] = False
+    case = dict(data=data, thr=thr if two_d else t0, mask=mask, conn=rng.choice([4, 8]), npix=1, kind='precision',
+                dtype=dtype, thr_repr=rep)
+    cand = [1, 1, 2]
+    for pix in components(case):
+        cand += [len(pix), len(pix) + 1]
+    case['npix'] = rng.choice(cand)
+    return case
+
+
+def weak_scalar_threshold(case):
+    """NumPy (NEP 50) treats a Python float / int operand as weakly typed: `float32_array > python_float` converts the
+    scalar to float32 first.  Returns the value the comparison then really uses when it differs from the value the
+    caller passed, else None."""
+    if case.get('thr_repr') not in ('pyfloat', 'pyint') or case.get('dtype') not in ('float32', 'float16'):
+        return None
+    with np.errstate(over='ignore'):
+        eff = float(_NPDT[case['dtype']](case['thr']))
+    return None if eff == float(case['thr']) else eff
+
+
+def snapshot(x):
+    """Bitwise image of an argument (None / scalar / ndarray in any layout / Quantity)."""
+    if x is None or isinstance(x, (bool, int, float)):
+        return repr(x)
+    unit = getattr(x, 'unit', None)
+    a = np.asarray(getattr(x, 'value', x))
+    return (str(unit), a.dtype.str, a.shape, a.tobytes())
+
+
+def thr_object(case):
+    """The threshold argument in the case's representation: 2-D array of a dtype, Python float / int, numpy scalar,
+    0-d array.  case['thr'] always holds the exact values as float64 (scalar or 2-D)."""
+    t = case['thr']
+    rep = case.get('thr_repr')
+    if rep is None:
+        return t
+    if np.isscalar(t):
+        obj = {'pyfloat': float, 'pyint': lambda v: int(round(v)), 'npf64': np.float64, 'npf32': np.float32,
+               'npf16': np.float16, 'f64-0d': lambda v: np.array(v, np.float64),
+               'f32-0d': lambda v: np.array(v, np.float32)}[rep](t)
+        assert float(obj) == float(t), (rep, t)      # the representation holds the value exactly
+        return obj
+    dt = {'f64': np.float64, 'f32': np.float32, 'f16': np.float16, 'i32': np.int32, 'i16': np.int16}[rep]
+    with np.errstate(invalid='ignore', over='ignore'):
+        obj = t.astype(dt)
+    assert np.array_equal(obj.astype(np.float64), t, equal_nan=True), (rep, t)
+    return obj
+
+
 def impl_args(case):
-    """Fresh (data, threshold, mask) arguments for the implementation, in the case's dtype and memory layouts."""
+    """Fresh (data, threshold, mask) arguments for the implementation, in the case's dtypes and memory layouts."""
     lay = case.get('layout') or {}
     data = case['data'].copy() if not case.get('dtype') else case['data'].astype(case['dtype'])
+    if case.get('dtype'):
+        assert np.array_equal(data.astype(np.float64), case['data'], equal_nan=True)   # the dtype holds the values exactly
     data = with_layout(data, lay.get('data', 'C'))
-    thr = case['thr'] if np.isscalar(case['thr']) else with_layout(case['thr'], lay.get('thr', 'C'))
+    thr = thr_object(case)
+    if np.ndim(thr) == 2:
+        thr = with_layout(thr, lay.get('thr', 'C'))
     mask = None if case['mask'] is None else with_layout(case['mask'], lay.get('mask', 'C'))
     return data, thr, mask
 
@@ -303,9 +463,117 @@ def run_impl(case):
     with warnings.catch_warnings(record=True) as w:
         warnings.simplefilter('always')
         data, thr, mask = impl_args(case)
+        before = [snapshot(data), snapshot(thr), snapshot(mask)]
         segm = detect_sources(data, thr, case['npix'], connectivity=case['conn'], mask=mask)
+        after = [snapshot(data), snapshot(thr), snapshot(mask)]
+    case['_modified'] = [k for k, b, a in zip(('data', 'threshold', 'mask'), before, after) if a != b]
     warned = any(issubclass(x.category, NoDetectionsWarning) for x in w)
     return segm, warned
+
+
+# ---------------------------------------------------------------------------------------------------------------
+# histories: the same argument objects re-used across consecutive calls
+# ---------------------------------------------------------------------------------------------------------------
+def gen_history(rng):
+    """A JSON-able script: one image, one background and one error (scalar or 2-D, several dtypes / layouts, optionally
+    Quantities), an optional mask, 2-4 detect_threshold calls with different nsigma on the SAME objects, then 2-3
+    detect_sources / SourceFinder calls with different npixels / connectivity on the SAME data / threshold / mask
+    objects (threshold = the array returned by the last detect_threshold call).  All values are multiples of 1/4 so
+    background + nsigma*error is exact in float64."""
+    ny, nx = rng.randint(2, 6), rng.randint(2, 7)
+    spec = {'kind': 'history', 'ny': ny, 'nx': nx,
+            'dtype': rng.choice(['float64', 'float64', 'float32', 'int32', 'int16']),
+            'data': [[rng.randint(-2, 12) for _ in range(nx)] for _ in range(ny)],
+            'units': rng.random() < 0.2}
+    for name, lo in (('background', -8), ('error', 0)):
+        form = rng.choice(['2d', '2d', '2d', 'scalar'])
+        spec[name] = {'form': form, 'dtype': rng.choice(['float64', 'float64', 'float32']),
+                      'layout': rng.choice(LAYOUTS),
+                      'values': ([[rng.randint(lo, 8) / 4 for _ in range(nx)] for _ in range(ny)] if form == '2d'
+                                 else rng.randint(lo, 8) / 4)}
+    spec['data_layout'] = rng.choice(LAYOUTS)
+    spec['mask'] = None
+    if rng.random() < 0.4:
+        m = [[int(rng.random() < 0.2) for _ in range(nx)] for _ in range(ny)]
+        m[0][0] = 0
+        spec['mask'] = m
+        spec['mask_layout'] = rng.choice(LAYOUTS)
+    spec['nsigmas'] = [rng.choice([0.5, 1.0, 2.0, 3.0, 1.5, 4.0, 2.5]) for _ in range(rng.randint(2, 4))]
+    spec['detect'] = [{'api': rng.choice(['detect_sources', 'detect_sources', 'SourceFinder']),
+                       'npixels': rng.randint(1, 4), 'connectivity': rng.choice([4, 8])}
+                      for _ in range(rng.randint(2, 3))]
+    return spec
+
+
+def run_history(spec):
+    """Run the script on the implementation.  Returns a list of (signature, description) failures."""
+    import astropy.units as u
+    from photutils.segmentation import SourceFinder, detect_sources, detect_threshold
+    fails = []
+    unit = u.Jy if spec['units'] else None
+
+    def build(values, dtype, layout):
+        if np.ndim(values) == 0:
+            obj = float(values)
+            return (obj * unit if unit is not None else obj), float(values)
+        a = with_layout(np.array(values, float).astype(dtype), layout)
+        return (u.Quantity(a, unit, copy=False) if unit is not None else a), np.array(values, float)
+
+    data, data0 = build(spec['data'], spec['dtype'], spec['data_layout'])
+    bkg, bkg0 = build(spec['background']['values'], spec['background']['dtype'], spec['background']['layout'])
+    err, err0 = build(spec['error']['values'], spec['error']['dtype'], spec['error']['layout'])
+    mask = None if spec['mask'] is None else with_layout(np.array(spec['mask'], bool), spec['mask_layout'])
+    mask0 = None if mask is None else np.array(spec['mask'], bool)
+    live = {'data': data, 'background': bkg, 'error': err, 'mask': mask}
+    snaps = {k: snapshot(v) for k, v in live.items()}
+
+    def unchanged(sig, step):
+        for k, v in live.items():
+            if snapshot(v) != snaps[k]:
+                fails.append((sig, f'{step}: argument `{k}` was modified in place'))
+                snaps[k] = snapshot(v)      # report each modification once
+
+    thr = want = None
+    for i, ns in enumerate(spec['nsigmas']):
+        step = f'detect_threshold call {i + 1} (nsigma={ns})'
+        try:
+            with warnings.catch_warnings():
+                warnings.simplefilter('ignore')
+                thr = detect_threshold(data, ns, background=bkg, error=err)
+        except Exception as e:
+            fails.append(('detect_threshold:exception', f'{step}: {type(e).__name__}: {str(e)[:150]}'))
+            return fails
+        want = np.broadcast_to(bkg0, data0.shape) + ns * np.broadcast_to(err0, data0.shape)    # from the ORIGINAL values
+        got = np.asarray(getattr(thr, 'value', thr))
+        if (unit is not None) != hasattr(thr, 'unit') or got.shape != want.shape or not np.array_equal(got, want):
+            fails.append(('detect_threshold:history', f'{step}: result != background + nsigma*error of the original '
+                          f'arrays: got {got.tolist()}, want {want.tolist()}'))
+        unchanged('detect_threshold:input-modified', step)
+    live['threshold'] = thr
+    snaps['threshold'] = snapshot(thr)
+    thr_true = np.asarray(getattr(thr, 'value', thr)).astype(float)    # what the later calls are given
+    for i, d in enumerate(spec['detect']):
+        step = f"{d['api']} call {i + 1} (npixels={d['npixels']}, connectivity={d['connectivity']})"
+        case = dict(data=data0, thr=thr_true, mask=mask0, conn=d['connectivity'], npix=d['npixels'])
+        try:
+            with warnings.catch_warnings():
+                warnings.simplefilter('ignore')
+                if d['api'] == 'detect_sources':
+                    segm = detect_sources(data, thr, d['npixels'], connectivity=d['connectivity'], mask=mask)
+                else:
+                    segm = SourceFinder(npixels=d['npixels'], connectivity=d['connectivity'], deblend=False,
+                                        progress_bar=False)(data, thr, mask=mask)
+        except Exception as e:
+            fails.append((d['api'] + ':exception', f'{step}: {type(e).__name__}: {str(e)[:150]}'))
+            continue
+        if not oracle(case, segm):
+            fails.append((d['api'] + ':history', f'{step}: segmentation differs from the connected components of the '
+                          f'original data above the threshold handed over: '
+                          f'{None if segm is None else segm.data.tolist()}'))
+        elif segm is not None and attrs_mismatch(segm):
+            fails.append((d['api'] + ':preseeded-attrs', f'{step}: ' + ', '.join(attrs_mismatch(segm))))
+        unchanged(d['api'] + ':input-modified', step)
+    return fails
 
 
 def fresh_agrees(segm):
@@ -415,8 +683,17 @@ def to_coq(case, segm):
         sl = [(s[0].start, s[0].stop, s[1].start, s[1].stop) for s in segm.slices]
         exp = Some(([int(v) for v in segm.data.ravel()], [int(v) for v in segm.labels],
                     [int(v) for v in segm.areas], sl))
-    return coq((ny, nx, case['conn'] == 8, int(case['npix']), [_val(v) for v in d.ravel()],
-                [_val(v) for v in thr.ravel()], [bool(m) for m in mask.ravel()], exp))
+    val = _val
+    fin = [float(v) for a in (d, thr) for v in a.ravel() if np.isfinite(v)]
+    if any(v != int(v) or abs(v) > 10 ** 6 for v in fin):
+        # the model only compares threshold < data: an order-preserving map of the exact values (every float is a
+        # rational) to integers is a faithful encoding
+        rank = {q: i for i, q in enumerate(sorted({Fraction(v) for v in fin}))}
+
+        def val(v):
+            return _val(v) if not np.isfinite(v) else Some(rank[Fraction(float(v))])
+    return coq((ny, nx, case['conn'] == 8, int(case['npix']), [val(v) for v in d.ravel()],
+                [val(v) for v in thr.ravel()], [bool(m) for m in mask.ravel()], exp))
 
 
 def gen_intruder_case(rng):
@@ -528,7 +805,8 @@ def describe(case):
              for r in case['thr']],
             'dtype': case.get('dtype'),
             'mask': None if case['mask'] is None else case['mask'].astype(int).tolist(),
-            'connectivity': case['conn'], 'npixels': int(case['npix']), 'layout': case.get('layout')}
+            'connectivity': case['conn'], 'npixels': int(case['npix']), 'layout': case.get('layout'),
+            'threshold_repr': case.get('thr_repr')}
 
 
 def run(ctx):
@@ -541,7 +819,13 @@ def run(ctx):
                        'boxes); every case in a memory layout of data / threshold / mask drawn from C, Fortran, transposed '
                        'view, strided view of a larger array, negative strides, non-native byte order; thorough adds all binary images up '
                        'to 3x4/4x3; non-trivial = at least one pixel above threshold; distinct = distinct '
-                       '(data, threshold, mask, conn, npixels, layout)')
+                       '(data, threshold, mask, conn, npixels, layout, dtypes); precision cases: image dtype x threshold '
+                       'representation (2-D float64/float32/float16/int32, Python float/int, numpy scalars, 0-d arrays) '
+                       'with data and threshold equal / adjacent / inside the rounding interval of each other in the '
+                       'narrower type, encoded for Coq by an order-preserving map of the exact values to integers; '
+                       'histories: the same background / error / threshold / mask objects re-used across consecutive '
+                       'detect_threshold / detect_sources / SourceFinder calls, every result compared with the oracle from '
+                       'the ORIGINAL values and every argument compared bitwise before / after each call')
     ctx.assumptions += ['scipy.ndimage.label / find_objects are modelled (components numbered in raster order of their '
                         'first pixel; tight boxes) and that model is compared with scipy itself on every non-empty foreground '
                         '(check_scipy) in addition to the end-to-end comparison of detect_sources with the proved models '
@@ -550,6 +834,11 @@ def run(ctx):
                         'is_consecutive, missing_labels, background_area, segments, get_areas, get_indices) are compared '
                         'with their plain-Python meaning and with a fresh SegmentationImage only (no Coq model here; C05 '
                         'models them)']
+    ctx.assumptions += ['a Python float / int threshold with a float32 / float16 image is compared by NumPy in the image '
+                        "dtype (NEP 50 weak scalars): where that differs from the exact value of the scalar the "
+                        "implementation's answer is required to be the exact labelling for the rounded scalar and the case is "
+                        "counted under 'weak_scalar' (numpy scalars, 0-d arrays and 2-D thresholds of any dtype must be "
+                        'compared exactly)']
     ctx.cov['partial_clauses'] = ['detect_threshold is checked numerically against background + nsigma*error (given or '
                                   'sigma-clipped mean/std estimates, all image dtypes); no Coq model of it']
     n = 400 if ctx.tier == 'quick' else 3000
@@ -557,6 +846,7 @@ def run(ctx):
     cases += [gen_shapes_case(ctx.rng) for _ in range(n // 2)]
     cases += [gen_intruder_case(ctx.rng) for _ in range(n // 8)]
     cases += [gen_scene_case(ctx.rng) for _ in range(n // 2)]
+    cases += [gen_precision_case(ctx.rng) for _ in range(n // 2)]
     for c in cases:
         assign_layout(ctx.rng, c)
     if ctx.tier == 'thorough':
@@ -577,9 +867,32 @@ def run(ctx):
             ctx.violation('detect_sources:exception', f'detect_sources raised {type(e).__name__}: {str(e)[:200]}',
                           describe(c))
             continue
-        if segm is not None and any(b.startswith('exception:') for b in attrs_mismatch(segm)):
+        if c.get('_modified'):
+            ctx.violation('detect_sources:input-modified', 'detect_sources changed its input array(s) in place: '
+                          + ', '.join(c['_modified']), describe(c))
+        eff = weak_scalar_threshold(c)
+        if eff is not None:
+            ctx.stat('weak_scalar', 'python scalar threshold not representable in the float32/float16 image dtype')
+            c_eff = dict(c, thr=eff, thr_repr='np' + {'float32': 'f32', 'float16': 'f16'}[c['dtype']])
+            if not oracle(c, segm) and oracle(c_eff, segm):
+                # not a finding of photutils' code: `float32_array > python_float` is evaluated by NumPy (NEP 50) with
+                # the scalar converted to float32; the answer is the exact labelling for THAT threshold.  Counted and
+                # reported in the evidence; the case continues with the threshold NumPy really used, so that the
+                # labelling / attribute clauses are still checked on it.
+                ctx.stat('weak_scalar', 'answer = exact labelling for the scalar rounded to the image dtype (NEP 50), '
+                         '!= exact labelling for the scalar as passed')
+                ctx.cov.setdefault('observations', [])
+                if len(ctx.cov['observations']) < 3:
+                    ctx.cov['observations'].append({'what': 'python float threshold compared in the image dtype by NumPy',
+                                                    'case': describe(c), 'threshold_used': eff})
+                c = c_eff
+        # the (redundant, plain-Python) attribute oracle runs on every random case and on every 3rd case of the
+        # exhaustive sweep; fresh_agrees and the Coq comparison of labels / areas / slices run on all of them
+        full_attrs = segm is not None and (c['kind'] != 'exh' or len(ran) % 3 == 0)
+        bad_attrs = attrs_mismatch(segm) if full_attrs else []
+        if any(b.startswith('exception:') for b in bad_attrs):
             ctx.violation('detect_sources:preseeded-attrs', 'an attribute of the returned SegmentationImage raises: '
-                          + ', '.join(attrs_mismatch(segm)), describe(c))
+                          + ', '.join(bad_attrs), describe(c))
             continue
         ran.append(c)
         impl.append(segm)
@@ -587,7 +900,8 @@ def run(ctx):
         ctx.stat('layout', 'mixed(data/threshold/mask differ)' if len(set(c['layout'].values())) > 1
                  else c['layout']['data'])
         ctx.stat('result', 'None' if segm is None else 'segments')
-        nontrivial = len(components(c)) > 0
+        ncomp = len(components(c))
+        nontrivial = ncomp > 0
         ctx.count_case(describe(c), nontrivial)
         # property clauses that need no model
         if (segm is None) != warned:
@@ -596,10 +910,9 @@ def run(ctx):
         if segm is not None and not fresh_agrees(segm):
             ctx.violation('detect_sources:preseeded-attrs', 'labels/slices/areas differ from a fresh SegmentationImage',
                           describe(c))
-        if segm is not None:
-            bad_attrs = attrs_mismatch(segm)
+        if full_attrs:
             ctx.stat('attrs', 'checked')
-            ctx.stat('attrs', 'removed+relabelled' if len(components(c)) != segm.nlabels else 'nothing-removed')
+            ctx.stat('attrs', 'removed+relabelled' if ncomp != segm.nlabels else 'nothing-removed')
             if bad_attrs:
                 ctx.violation('detect_sources:preseeded-attrs', 'attributes of the returned SegmentationImage differ from '
                               'their meaning recomputed from its array / from a fresh SegmentationImage: '
@@ -665,8 +978,18 @@ def run(ctx):
                 mask[0, 0] = False
         with warnings.catch_warnings():
             warnings.simplefilter('ignore')
-            got = detect_threshold(data.copy(), ns, background=b.copy() if isinstance(b, np.ndarray) else b,
-                                   error=e.copy() if isinstance(e, np.ndarray) else e, mask=None if mask is None else mask.copy())
+            args = [data.copy(), b.copy() if isinstance(b, np.ndarray) else b,
+                    e.copy() if isinstance(e, np.ndarray) else e, None if mask is None else mask.copy()]
+            before = [snapshot(a) for a in args]
+            got = detect_threshold(args[0], ns, background=args[1], error=args[2], mask=args[3])
+            changed = [k for k, a, sb in zip(('data', 'background', 'error', 'mask'), args, before) if snapshot(a) != sb]
+            if changed:
+                ctx.violation('detect_threshold:input-modified', 'detect_threshold changed its input array(s) in place: '
+                              + ', '.join(changed),
+                              {'data': data.tolist(), 'dtype': dtype, 'form': form,
+                               'background': None if b is None else np.asarray(b).tolist(),
+                               'error': None if e is None else np.asarray(e).tolist(), 'nsigma': ns,
+                               'mask': None if mask is None else mask.astype(int).tolist()})
             if b is None or e is None:   # the documented estimate: sigma-clipped (3 sigma, 10 iterations) mean / std
                 dd = np.ma.MaskedArray(data.astype(float), mask) if mask is not None else data.astype(float)
                 clipped = SigmaClip(sigma=3.0, maxiters=10)(dd, masked=False, return_bounds=False, copy=True)
@@ -692,10 +1015,20 @@ def run(ctx):
                            'mask': None if mask is None else mask.astype(int).tolist(),
                            'got': got.tolist(), 'want': want.tolist()})
     ctx.stat('generator', 'detect_threshold_cases', nthr)
+    nh = 60 if ctx.tier == 'quick' else 500
+    for it in range(nh):
+        spec = gen_history(ctx.rng)
+        ctx.count_case(['history', spec])
+        ctx.stat('history', 'units' if spec['units'] else 'plain')
+        ctx.stat('history', f"error:{spec['error']['form']}/{spec['error']['dtype']}")
+        for sig, what in run_history(spec)[:3]:
+            ctx.violation(sig, what, spec)
+    ctx.stat('generator', 'histories', nh)
     # SourceFinder(deblend=False) equals detect_sources
     from photutils.segmentation import SourceFinder, detect_sources
     for c in (cases[:60] + cases[n:n + 40] + cases[n + n // 2:n + n // 2 + 20]
-              + cases[n + n // 2 + n // 8:n + n // 2 + n // 8 + 40]):
+              + cases[n + n // 2 + n // 8:n + n // 2 + n // 8 + 40]
+              + cases[2 * n + n // 8:2 * n + n // 8 + 40]):
         if c['mask'] is not None and c['mask'].all():
             continue
         with warnings.catch_warnings():
@@ -722,6 +1055,12 @@ def run(ctx):
 
 def replay(obj):
     r = obj['replay']
+    if r.get('kind') == 'history':
+        fails = run_history(r)
+        for sig, what in fails:
+            print(f'[{sig}] {what}')
+        print('property FAILS on this history' if fails else 'property holds on this history')
+        return 1 if fails else 0
     c = r.get('case', r)
     case = dict(data=np.array([[np.nan if v is None else (np.inf if v == 'inf' else (-np.inf if v == '-inf' else v))
                                 for v in row] for row in c['data']], float),
@@ -730,7 +1069,8 @@ def replay(obj):
                            for v in row] for row in c['threshold']], float),
                 dtype=c.get('dtype'),
                 mask=None if c['mask'] is None else np.array(c['mask'], bool),
-                conn=c['connectivity'], npix=c['npixels'], layout=c.get('layout'))
+                conn=c['connectivity'], npix=c['npixels'], layout=c.get('layout'),
+                thr_repr=c.get('threshold_repr'))
     try:
         segm, _ = run_impl(case)
     except Exception as e:
@@ -738,6 +1078,13 @@ def replay(obj):
         print('property FAILS on this input')
         return 1
     ok = oracle(case, segm)
+    eff = weak_scalar_threshold(case)
+    if not ok and eff is not None and oracle(dict(case, thr=eff), segm):
+        print(f'python scalar threshold compared by NumPy in the image dtype (as {eff!r}): exact labelling for that value')
+        ok = True
+    if case.get('_modified'):
+        print('inputs modified in place:', case['_modified'])
+        ok = False
     bad_attrs = attrs_mismatch(segm) if segm is not None else []
     if bad_attrs:
         print('attributes differing from their meaning on the array / a fresh SegmentationImage:', bad_attrs)
